@@ -54,11 +54,11 @@ def showRes (r : Res ColumnSeries) : String :=
 
 /-- hypotheses of `C29_partial` that are false for this input -/
 def c29Hyps (cs : ColumnSeries) : List String :=
-  (match cs.cols with
-   | c :: _ => if c.name == "Epoch" then [] else ["epoch_first"]
-   | [] => ["epoch_first"]) ++
-  (if cs.cols.any (fun c => c.typ == BYTE || c.typ == BOOL) then ["no_int8_bool"] else []) ++
-  (if cs.cols.any (fun c => c.name != "Epoch" && equalFoldEpoch c.name) then ["no_epoch_alias"] else [])
+  if cs.cols.any (fun c => c.typ == BOOL) then ["no_bool"] else []
+
+/-- what the property demands: the Epoch column first, then the other columns in their order -/
+def c29Expect (cs : ColumnSeries) : ColumnSeries :=
+  ⟨cs.cols.filter (fun c => c.name == "Epoch") ++ cs.cols.filter (fun c => !(c.name == "Epoch")), []⟩
 
 /-- is the input a column series the property speaks about: every column a fixed-width type, all
 columns of one length, distinct names, an int64 `Epoch` column -/
@@ -67,13 +67,16 @@ def c29Valid (cs : ColumnSeries) : Bool :=
   (cs.cols.map (·.name)).eraseDups.length == cs.cols.length &&
   cs.cols.any (fun c => c.name == "Epoch" && c.typ == INT64)
 
-/-- `rowser align rowtype cs shapes` (`shapes` = `=`: use `cs.GetDataShapes()`, i.e. `ToRowSeries`) -/
+/-- `rowser align rowtype cs shapes`.  `shapes` = `=` with row type NOTYPE (2): the real
+`cs.ToRowSeries(key, align)`; `=` otherwise: `cs.GetDataShapes()` handed to `SerializeColumnsToRows`
+and `NewRowSeries` directly; else an explicit shape list. -/
 def rowserOp : Op := fun args =>
   match args with
   | [al, rt, css, shs] =>
     match parseNat al, parseNat rt, parseCS css with
     | some al, some rt, some cs =>
-      let shapes? := if shs == "=" then some cs.getDataShapes else parseShapes shs
+      let shapes? := if shs == "=" then some (if rt == 2 then toRowSeriesShapes cs else cs.getDataShapes)
+        else parseShapes shs
       match shapes? with
       | none => badArgs
       | some shapes =>
@@ -88,7 +91,8 @@ def rowserOp : Op := fun args =>
           | .ok s => s
           | .error e => e
         if shs == "=" && rt == 2 && c29Valid cs then
-          s!"M:{mline}\tS:~ rcs={showCS cs} cs={showCS cs}\tH:{",".intercalate (c29Hyps cs)}"
+          let e := showCS (c29Expect cs)
+          s!"M:{mline}\tS:~ rcs={e} cs={e}\tH:{",".intercalate (c29Hyps cs)}"
         else s!"M:{mline}"
     | _, _, _ => badArgs
   | _ => badArgs
